@@ -26,6 +26,11 @@ type loopCase struct {
 	internal  []string
 	cause     map[string]string
 	noAttr    bool
+	// dangling references (dangling.go)
+	dang *dangling
+	full *hSchema // the schema with an intact parent
+	pre  *hSchema // what is created before post runs (nil: ast)
+	post []string
 }
 
 func (c *loopCase) run() {
@@ -38,13 +43,23 @@ func (c *loopCase) run() {
 			return
 		}
 	case "atlas":
-		s, err := astToSchema(c.ast)
+		src := c.ast
+		if c.pre != nil {
+			src = c.pre
+		}
+		s, err := astToSchema(src)
 		if err != nil {
 			c.prepErr = err
 			c.res.createErr = err
 			return
 		}
 		if c.res.createErr = applySchema(db0, s); c.res.createErr != nil {
+			return
+		}
+	}
+	for _, p := range c.post {
+		if _, err := db0.Exec(p); err != nil {
+			c.res.createErr = fmt.Errorf("history %q: %w", p, err)
 			return
 		}
 	}
@@ -125,11 +140,19 @@ func runCases(w *out.W, cases []*loopCase) {
 		}
 		if c.res.createErr != nil {
 			w.Count("engine-reject")
-			w.ImplOnly(c.id, "engine-reject "+short(c.script, 200)+" :: "+errStr(c.res.createErr))
+			if c.dang != nil {
+				w.Count("dangling-reject:" + errStr(c.res.createErr))
+			}
+			w.ImplOnly(c.id, "engine-reject "+short(c.fullScript(), 200)+" :: "+errStr(c.res.createErr))
 			continue
 		}
 		vs := append(c.res.verdict(), c.truth...)
-		w.ImplOnly(c.id, fmt.Sprintf("%s tables=%d viol=%d %s", c.how, c.res.nTables, len(vs), short(c.script, 300)))
+		if c.res.inspectErr == nil && c.res.rawErr == nil && c.res.sqlPlanErr == nil {
+			cl, ob := dumpTie(c.res.rawTables, c.res.created)
+			w.Case(c.id, cl, []string{ob})
+		} else {
+			w.ImplOnly(c.id, fmt.Sprintf("%s tables=%d viol=%d %s", c.how, c.res.nTables, len(vs), short(c.script, 300)))
+		}
 		w.NonTrivial(c.how + "|" + c.history + "|" + tags)
 		seen := map[string]bool{}
 		var syms []string
@@ -151,7 +174,7 @@ func runCases(w *out.W, cases []*loopCase) {
 				cz = "corpus"
 			}
 			w.Count("viol:" + cz + "/" + v.class)
-			w.Violation(c.id, cz, fmt.Sprintf("symptom=%s how=%s history=%s %s ;; sql=%s", v.class, c.how, c.history, short(v.msg, 500), short(c.script, 700)))
+			w.Violation(c.id, cz, fmt.Sprintf("symptom=%s how=%s history=%s %s ;; sql=%s", v.class, c.how, c.history, short(v.msg, 500), short(c.fullScript(), 700)))
 		}
 	}
 }
@@ -201,6 +224,21 @@ func runLoop(w *out.W, tier string) {
 			}
 		}
 		cases = append(cases, c)
+	}
+	// dangling references: {parent dropped, parent never existed, referenced column dropped} x {named, unnamed} x {1, 2 children}
+	nd := 3
+	if tier == "thorough" {
+		nd = 25
+	}
+	for v := 0; v < nd; v++ {
+		for gi, d := range danglingGrid() {
+			r := rng.New(seed*0x9E3779B97F4A7C15 ^ uint64(v*100+gi)*0xD1B54A32D192ED03 ^ 0xDA)
+			how := "hand"
+			if (v+gi)%3 == 2 {
+				how = "atlas"
+			}
+			cases = append(cases, newDanglingCase(fmt.Sprintf("d%02d_%02d", v, gi), how, r, d, v))
+		}
 	}
 	runCases(w, cases)
 }
